@@ -46,7 +46,9 @@ SHARD_TIMEOUT = {"quick": 600, "thorough": 3000}
 NAMES_CONV = ["main", "vacation", "x y", "été", "spam-rules"]
 NAMES_ANY = ["main", 'q"q', "{5}", "OK", "a\\b", "ACTIVE",
              # at most 1024 octets raw, more than 1024 once '"' and '\\' are escaped
-             "x" * 1000 + '"' * 20, "\\" * 513, 'é"' * 341]
+             "x" * 1000 + '"' * 20, "\\" * 513, 'é"' * 341,
+             # a quote first and none after it, many escapes
+             '"' + "a" * 40, 'q"' * 10 + "\\" * 10]
 
 
 def plan(tier, seed):
